@@ -21,7 +21,7 @@ CHECKS = {
    note="Termination is judged by a no-progress watchdog. The harness build of xt keeps debug assertions and overflow checks on and unwinds, so debug-only panics are seen; the shipped panic=abort behaviour is exercised through the binaries."),
  "C05": dict(cat="model_checking", design="4.5",
    technique="enumeration of packetisations and deviation-bounded read schedules with a monitor evaluated at every read() of the real library (lag), plus long generated streams under a counting allocator whose abstract heap states must recur (memory)",
-   text="For every enumerated stream shape, source (named and detected), target and packetisation (and every schedule within the deviation bound for small streams) the lag monitor holds at every read(): documents 1..j-2 are fully written once j documents were delivered. For generated streams of tens of thousands of documents the live heap does not grow between the second and third quarter, stays under 2 MiB + 24 largest documents, and its abstract states recur.",
+   text="For every enumerated stream shape, source (named and detected), target and packetisation (and every schedule within the deviation bound for small streams) the lag monitor holds at every read(): documents 1..j-2 are fully written once j documents were delivered. For generated streams of tens of thousands of documents the live heap does not grow between the second and third quarter, stays under 8 MiB + 24 largest documents, and its abstract states recur.",
    note="Memory = live heap of the translating thread as seen by a counting GlobalAlloc; fragmentation and RSS are not modelled. The claim for longer streams rests on determinism plus the reported recurrence."),
  "C06": dict(cat="exploration", design="4.6",
    technique="bounded-exhaustive enumeration of documents x ordered format pairs, metamorphic two-hop oracle on the real library (idempotence and round trip), both supply modes at each hop",
